@@ -115,7 +115,7 @@ var c13MalformedList []c13Malformed
 
 func init() {
 	c13BuildPairs()
-	for _, op := range []string{"put", "get", "update", "delete", "batchwrite", "batchget", "put-cond-false", "update-cond-false", "delete-cond-false", "put-cond-true", "query-start-key", "scan-start-key"} {
+	for _, op := range []string{"put", "get", "update", "delete", "batchwrite", "batchget", "put-cond-false", "update-cond-false", "delete-cond-false", "put-cond-true", "query-start-key", "scan-start-key", "index-query-start-key", "index-scan-start-key"} {
 		for _, d := range []string{"missing-hash", "missing-range", "empty-key", "hash-empty-value", "range-empty-value", "surplus-attribute", "hash-two-types", "range-two-types", "range-untyped"} {
 			c13MalformedList = append(c13MalformedList, c13Malformed{op, d})
 		}
@@ -445,12 +445,14 @@ func (p *c13) equalKeys(x *res, adapter string, ctx *runner.Ctx) {
 
 func (p *c13) malformed(x *res, adapter string, ctx *runner.Ctx) {
 	spec := mon.SpecHashRange("tbl13")
+	// (a global index, for the reads that continue THROUGH an index: their start key is a key of the index AND of the table)
+	spec.Indexes = []adapt.IndexSpec{{Name: "gsi", Hash: "g", Range: "s"}}
 	for _, mf := range c13MalformedList {
 		cl, _, ds := freshClient(adapter, spec)
 		if ds != nil {
 			return
 		}
-		good := val.Item{"h": val.Str("a"), "r": val.Str("b"), "v": val.Num("1")}
+		good := val.Item{"h": val.Str("a"), "r": val.Str("b"), "v": val.Num("1"), "g": val.Str("x"), "s": val.Str("y")}
 		cl.Do(adapt.Op{Kind: adapt.OpPut, Table: spec.Name, Item: good})
 		key := val.Item{"h": val.Str("a"), "r": val.Str("b")}
 		switch {
@@ -520,6 +522,19 @@ func (p *c13) malformed(x *res, adapter string, ctx *runner.Ctx) {
 				op = adapt.Op{Kind: adapt.OpScan, Table: spec.Name, Start: key}
 			} else {
 				op = adapt.Op{Kind: adapt.OpQuery, Table: spec.Name, KeyCnd: "h = :h", Values: val.Item{":h": val.Str("a")}, Start: key}
+			}
+		case "index-query-start-key", "index-scan-start-key":
+			// the same through an index: the start key holds the key of the index, well formed, and the (defective)
+			// primary key - an index entry is located by both
+			if mf.defect == "empty-key" {
+				continue
+			}
+			start := key.Clone()
+			start["g"], start["s"] = val.Str("x"), val.Str("y")
+			if mf.op == "index-scan-start-key" {
+				op = adapt.Op{Kind: adapt.OpScan, Table: spec.Name, Index: "gsi", Start: start}
+			} else {
+				op = adapt.Op{Kind: adapt.OpQuery, Table: spec.Name, Index: "gsi", KeyCnd: "g = :g", Values: val.Item{":g": val.Str("x")}, Start: start}
 			}
 		case "batchwrite":
 			it := key.Clone()
